@@ -50,10 +50,16 @@ pub async fn on_did_rename_files_handler(
     if !all_renames.is_empty() {
         drop(analysis);
         // 更新
+        // lock order: workspace_manager (read) -> analysis (write); a document that is already open
+        // under its new name keeps the editor's text instead of being overwritten from disk
+        let workspace_manager = context.workspace_manager().read().await;
         let mut analysis = context.analysis().write().await;
         let encoding = &analysis.get_emmyrc().workspace.encoding;
         for rename in all_renames.iter() {
             analysis.remove_file_by_uri(&rename.old_uri);
+            if workspace_manager.is_open_file(&rename.new_uri) {
+                continue;
+            }
             if let Some(new_path) = uri_to_file_path(&rename.new_uri)
                 && let Some(text) = read_file_with_encoding(&new_path, encoding)
             {
@@ -61,6 +67,16 @@ pub async fn on_did_rename_files_handler(
             }
         }
         drop(analysis);
+        drop(workspace_manager);
+
+        // the old uris left the analysis: clear what was published for them
+        if !context.lsp_features().supports_pull_diagnostic() {
+            for rename in all_renames.iter() {
+                context
+                    .file_diagnostic()
+                    .clear_push_file_diagnostics(rename.old_uri.clone());
+            }
+        }
 
         let analysis = context.analysis().read().await;
         if let Some(changes) = try_modify_require_path(&analysis.compilation, &all_renames) {
